@@ -415,6 +415,7 @@ class E1:
                     else:
                         for i in dirty:
                             restore(work[i], caps[i], self.skip)
+                    self.heal(work, caps)
                     t = self.touched(ev)
                     t = everything if t is None else tuple(sorted(set(t)))
                     if aliases:
@@ -478,6 +479,15 @@ class E1:
                 stats["closed"] = True
                 break
 
+    def heal(self, work, caps):
+        """Hook, called after the working objects were restored to a state and before the next
+        event: a system may replace a working object whose identity was damaged by an EARLIER
+        transition in a way captures cannot express (e.g. a shared-memory sketch whose arrays
+        no longer live in its block), so that the damage is reported where it arises - on the
+        transition that caused it, which a replay reproduces - and not on unrelated later ones.
+        The default does nothing."""
+        return
+
     @staticmethod
     def path(parent, st):
         evs = []
@@ -540,12 +550,24 @@ class E1:
             p3 = self.post_oracle(work, model) if has_post else []
             self._active = None
             self.res_all(work, caps, al2)
+            self.heal(work, caps)
             self.G.restore(g2)
             self.ext_restore(ext)
             aliases = al2
             if p1 or p2 or p3:
                 return True, {"step": i + 1, "event": list(ev), "problems": (p1 + p2 + p3)[:5]}
         return False, {"steps": len(events)}
+
+
+def in_block(arr, shm):
+    """True if the numpy array's memory lies inside the shared-memory block."""
+    import numpy as _np
+
+    a = arr.__array_interface__["data"][0]
+    tmp = _np.frombuffer(shm.buf, _np.uint8)
+    b = tmp.__array_interface__["data"][0]
+    del tmp
+    return b <= a < b + shm.size
 
 
 def _tup(x):
